@@ -126,7 +126,7 @@ def sym_exact(args):
     sc = fork.make_scheme(B, T)
     ws = spec.level_vectors(n)
     wt = {w: ds.score_term(w, B, T) for w in ws}
-    ex = fork.Explorer(fork.valid_scheme(B, T) + ds.constraints(), max_paths=int(2e5), timeout_ms=120000)
+    ex = fork.Explorer(fork.valid_scheme(B, T) + ds.constraints(), max_paths=int(2e5), timeout_ms=300000)
 
     def pay(ctx, mdl, what, cls):
         return {"signature": {"site": cfg + "(symbolic dataset)", "class": cls}, "what": f"{cfg}: {what}", "check": cls, "config": cfg, "flag": flag,
@@ -192,7 +192,7 @@ def run(run):
     symb = [("ExactCplex(noopt)", 2, 2, True), ("ExactCplex(noopt)", 3, 1, True), ("ExactCplex(noopt)", 3, 2, True), ("ExactCplex(noopt)", 2, 2, False),
             ("ExactPulp", 2, 2, True), ("ExactPulp", 3, 1, True)]
     if run.thorough:
-        symb += [("ExactCplex(noopt)", 3, 3, True), ("ExactCplex(noopt)", 3, 1, False), ("ExactPulp", 3, 2, True), ("ExactCplexOptim1", 3, 2, True)]
+        symb += [("ExactCplex(noopt)", 2, 3, True), ("ExactCplex(noopt)", 3, 1, False), ("ExactPulp", 3, 2, True), ("ExactCplexOptim1", 3, 2, True)]
     run.bounds["exact models on symbolic datasets [S over datasets and schemes] (config, n, m, at most one)"] = symb
     run.pmap("sym_exact", sym_exact, symb)
     run.part("validate_engine_f", lambda: sweep.validate_engine_f(run, 40 if run.thorough else 14))
